@@ -270,6 +270,7 @@ FITTED = [  # (name, family for c02 builders, model factory kwargs)
     ("daily_unc_alpha0", "daily", {"settings": {"uncertainty_alpha": 0}}),
     ("billing_unc_alpha0", "billing", {"settings": {"uncertainty_alpha": 0}}),
     ("billing", "billing", {}),
+    ("daily_f32_spike", "daily", {}),        # float32 meter column holding an extreme value: the warning's payload goes into the document
     ("daily_fixed_offset", "daily", {}),     # baseline indexed in a fixed UTC offset ("-06:00"), as parsing ISO-8601 text gives
     ("billing_fixed_offset", "billing", {}),
     ("hourly", "hourly", {"settings": {"seed": 7}}),
@@ -318,6 +319,10 @@ def build_fitted(name):
         frame = frame.tz_localize(None).tz_localize("-06:00")
     if name == "hourly_supp":
         frame = add_supplemental(frame)
+    if name == "daily_f32_spike":
+        frame = frame.copy()
+        frame.iloc[50, frame.columns.get_loc("observed")] = float(frame["observed"].max()) * 10
+        frame["observed"] = frame["observed"].astype("float32")
     if name == "caltrack_gappy":
         frame = frame.copy()
         frame.loc[(frame.index.dayofweek == 6) & (frame.index.hour == 3), "observed"] = np.nan
@@ -674,7 +679,7 @@ def run_case(case):
 def cases_B(tier):
     names = [f[0] for f in FITTED]
     if tier == "quick":
-        names = ["daily_current", "daily_legacy", "daily_poorfit", "daily_unc_alpha0", "billing", "daily_fixed_offset", "billing_fixed_offset", "hourly", "hourly_solar", "hourly_robust", "hourly_bins", "hourly_supp", "caltrack", "caltrack_gappy"]
+        names = ["daily_current", "daily_f32_spike", "daily_legacy", "daily_poorfit", "daily_unc_alpha0", "billing", "daily_fixed_offset", "billing_fixed_offset", "hourly", "hourly_solar", "hourly_robust", "hourly_bins", "hourly_supp", "caltrack", "caltrack_gappy"]
     out = [{"part": "B", "fit": n, "tier": tier, "depth": 3 if tier == "thorough" else 2} for n in names]
     out += [{"part": "R", "fit": f, "tier": tier} for f in (("daily", "billing", "hourly", "caltrack") if tier == "quick" else
                                                                ("daily", "billing", "hourly", "hourly_solar", "caltrack"))]
